@@ -170,6 +170,43 @@ def gen_case(rng, mode, d4_ok=True):
             'cut': rng.choice(['none', 'some', 'small']), 'cut_seed': rng.randrange(1 << 30)}
 
 
+def gen_bulk(rng, mode):
+    """MANY calls on one connection (the every-10th-accept pruning of the server Handler runs several times),
+    most of them ended by the client: cancel, application exception, deadline, task cancel; some reset by the
+    server, some plain"""
+    n = rng.randint(25, 45)
+    calls = []
+    for i in range(n):
+        card = rng.choice(['UU', 'SS'])
+        table = UU_CLIENT if card == 'UU' else SS_CLIENT
+        r = rng.random()
+        if r < 0.6:
+            cp = rng.choice(sorted(k for k in table if k.startswith(('cancel', 'raise', 'late-raise', 'late-cancel',
+                                                                      'double-cancel'))))
+        elif r < 0.8:
+            cp = 'ok'                                 # ... with a deadline and a handler that holds: times out
+        else:
+            cp = rng.choice(['ok', 'hold'] if card == 'UU' else ['ok', 'ok0', 'msgend'])
+        steps, complete, waits = table[cp]
+        if mode == 'link':
+            stab = UU_SERVER if card == 'UU' else SS_SERVER
+            sp = 'hold' if 0.6 <= r < 0.8 else rng.choice(['ok', 'ok', 'hold', 'reset' if card == 'UU' else 'reset-mid',
+                                                           'status' if card == 'UU' else 'status-mid', 'exc'])
+            server = list(stab[sp])
+        else:
+            sp = 'hold' if 0.6 <= r < 0.8 else rng.choice(['ok', 'ok', 'hold', 'rst', 'nonok', 'never'])
+            server = [list(x) for x in PEER[sp]]
+        deadline = rng.choice([4.0, 16.0]) if (0.6 <= r < 0.8 or sp in ('never', 'hold')) else rng.choice([None, None, 16.0])
+        calls.append({'card': card, 'cp': cp, 'sp': sp, 'client': list(steps), 'server': server,
+                      'start': rng.randrange(0, 40) * 0.25, 'deadline': deadline, 'swallow': False})
+    events = [{'t': rng.randrange(1, 40) * 0.25 + 0.125, 'ev': 'taskcancel', 'c': rng.randrange(n)}
+              for _ in range(rng.choice([0, 2, 5]))]
+    if rng.random() < 0.4:
+        events.append({'t': rng.choice([1.1, 3.1, 6.1]), 'ev': 'settings', 'n': rng.choice([2, 5])})
+    return {'mode': mode, 'limit0': rng.choice([None, None, 5, 2]), 'calls': calls, 'events': events,
+            'cut': rng.choice(['none', 'some']), 'cut_seed': rng.randrange(1 << 30), 'bulk': True}
+
+
 # ---- model side -----------------------------------------------------------------------------------
 
 def parse_snap(tok):
@@ -291,6 +328,25 @@ def oracle(run):
             fails.append({'what': 'a fresh unary call with MAX_CONCURRENT_STREAMS=1 after the history: %s' % run.probe,
                           'signature': sig, 'observed': {'probe': run.probe, 'final': {k: final[k] for k in
                                                          ('creg', 'sreg', 'out', 'in', 'h2', 'pending_tasks', 'held')}}})
+    a = getattr(run, 'agg', None) or {}
+    agg_fail = []
+    if a.get('finished_tasks_after'):
+        agg_fail.append(('_tasks', 'finished handler tasks survive a collect'))
+    if a.get('finished_cancelled_after'):
+        agg_fail.append(('_cancelled', 'finished cancelled handler tasks survive a collect'))
+    if 'finished_before' in a and a['finished_before'] > 20:
+        # pruning runs on every 10th accept: at most 9 finished tasks since the last collect, each possibly
+        # in both containers (Handler.close does not pop)
+        agg_fail.append(('periodic-pruning', 'more finished handler tasks are kept than 10 accepts can leave'))
+    if 'check_closed' in a and not a['unfinished_after'] and not a['check_closed']:
+        agg_fail.append(('check_closed', 'Handler.check_closed() is False although every handler task is done'))
+    if a.get('client_wrappers'):
+        agg_fail.append(('client-wrapper', 'a finished client call still holds tasks in its wrapper'))
+    if a.get('server_wrappers'):
+        agg_fail.append(('server-wrapper', 'a finished handler still holds tasks in its wrapper'))
+    for where, what in agg_fail:
+        fails.append({'what': 'per-call bookkeeping grows with finished calls: ' + what,
+                      'signature': {'kind': 'bookkeeping-not-pruned', 'where': where}, 'observed': a})
     if getattr(run, 'peer_violations', 0):
         fails.append({'what': 'the client broke HTTP/2 rules towards the peer', 'signature': {'kind': 'h2-violation'},
                       'observed': run.peer_violations})
@@ -339,6 +395,10 @@ def evaluate(ctx, res, cases):
         res.count('final:' + ('clean' if not (final['creg'] or final['out'] or final['in'] or final['sreg'] or
                                                final['pending_tasks']) else 'not-clean'))
         res.count('probe:' + run.probe)
+        if case.get('bulk'):
+            res.count('bulk-case')
+            res.count('bulk:handler-tasks-accepted', (run.agg or {}).get('accepted', 0))
+            res.count('bulk:finished-entries-before-explicit-collect', (run.agg or {}).get('finished_before', 0))
         if any(s['held'] for _, s in run.snaps):
             res.count('case-with-rst-held-back-while-paused')
         if any(s['paused'] and s['waiting'] for _, s in run.snaps):
@@ -381,7 +441,9 @@ def run(ctx):
                 'stream.cancel(), missing reply, BaseException / self-cancel = D4 class), client = a scripted h2 '
                 'peer (ok, non-OK with/without RST, trailers-only, RST at several moments, never answers); '
                 'MAX_CONCURRENT_STREAMS in {1,2,5} announced before the calls and at PRNG instants (raised and '
-                'lowered), client task cancellation, Server.close-style handler cancellation (link), PRNG re-cut '
+                'lowered), client task cancellation, Server.close-style handler cancellation (link), back-pressure '
+                'windows on both transports, SETTINGS frames combining several settings; plus bulk scenarios of '
+                '25..45 mostly client-ended calls (aggregate bookkeeping: Handler._tasks/_cancelled, wrapper task sets); PRNG re-cut '
                 'of the byte stream (link).  distinct = distinct (set-up, multiset of (cardinality, client '
                 'program, peer program, deadline?), announced limits, waiters occurred)')
     cases = list(ctx.corpus())
@@ -390,6 +452,8 @@ def run(ctx):
         cases.append(gen_case(rng, 'link'))
     for _ in range(n):
         cases.append(gen_case(rng, 'client'))
+    for i in range(ctx.n(40, 600)):
+        cases.append(gen_bulk(rng, 'link' if i % 4 else 'client'))
     evaluate(ctx, res, cases)
     return res
 
